@@ -8,7 +8,7 @@ from pipelines import pipeline, spec_must_hold, B1
 from vlib import Infra, CORES
 
 FAMILIES = 8
-PRESETS = 6
+PRESETS = 7
 STARTS = ["xor", "rich", "random", "read"]
 
 
@@ -25,6 +25,9 @@ def scenarios(seed, tier):
             for pre in range(PRESETS):
                 size = sizes[(k + rep) % len(sizes)]
                 ep = epochs if size <= 30 else max(8, epochs // 3)
+                if pre == 6:
+                    size = max(size, 50)  # enough organisms for several long-lived species that each expect more than two offspring
+                    ep = max(ep, 16)
                 if pre in (2, 4):
                     ep = max(ep, 14)     # fast-stagnation presets: delta coding fires after DropOffAge + 5 epochs without a record
                 out.append({"seed": seed * 100000 + k, "popsize": size, "executor": "par" if k % 3 == 2 else "seq",
@@ -130,8 +133,9 @@ def epoch_traces(ctx, replay, prop):
 @pipeline("C02")
 def c02(ctx, replay):
     ctx.rule = ("scenario matrix: 8 fitness families (all-zero, constant, linear, heavy-tailed, single dominant, stagnating, distinct "
-                "random, structure-driven) x 6 option presets (many species / stolen babies / fast stagnation with delta coding / one "
-                "species with everybody surviving / heavy stealing with linear compatibility / mating-heavy with interspecies mating) x "
+                "random, structure-driven) x 7 option presets (many species / stolen babies / fast stagnation with delta coding / one "
+                "species with everybody surviving / heavy stealing with linear compatibility / mating-heavy with interspecies mating / "
+                "several long-lived mid-sized species with heavy stealing) x "
                 "population sizes 3..30 (thorough ..80) x constructors (NewPopulation from two start genomes, NewPopulationRandom, "
                 "ReadPopulation of an evolved population) x sequential and parallel executor; every epoch is one trace line with the "
                 "whole population, validated by TLC (Trace_Epoch) against the clauses of C02; non-trivial = epochs of populations "
@@ -160,7 +164,7 @@ def c10(ctx, replay):
     ctx.nontrivial = st.get("species-quota>5", 0)
 
 
-_NOTE = ("Trace validation of seeded scenarios (quick: 48 scenarios x 12-14 epochs, population 3..30; thorough: 288 scenarios x up to 30 "
+_NOTE = ("Trace validation of seeded scenarios (quick: 56 scenarios x 12-14 epochs, population 3..30; thorough: 336 scenarios x up to 30 "
          "epochs, population 3..80), not exhaustive; MC_Epoch explores the turnover protocol exhaustively on the abstract model only. "
          "Trusted: TLC, the projection of the population (harness/cmd/vh_genome/epoch.go).")
 CHECKS = {
